@@ -190,6 +190,17 @@ def prove(ctx, module, theorems, extra_imports=(), gen_targets=()):
         info["bad_axioms"] = bad
         info["audit_out"] = out[-2000:]
         return False, info
+    if ctx.thorough():
+        # independent re-check of the compiled module (and everything it imports from this project) by the toolchain's leanchecker
+        try:
+            rc, lout = sh(["lake", "env", "leanchecker", module] + list(extra_imports), cwd=LEAN, timeout=3600)
+        except Exception as e:  # noqa
+            rc, lout = 1, repr(e)
+        info["leanchecker_rc"] = rc
+        ctx.coverage.setdefault("leanchecker", {})[module] = "ok" if rc == 0 else "FAILED"
+        if rc != 0:
+            info["leanchecker_out"] = lout[-2000:]
+            return False, info
     return True, info
 
 
